@@ -182,6 +182,10 @@ def topts(t):
     return e[3] if len(e) > 3 else {}
 
 # ---- known-finding regions (root causes recorded in KNOWN_FINDINGS.txt); the main campaign stays out of them by construction
+# templates whose projection is exactly tight without compression (no slack for the decode buffer of a compressed read)
+TIGHT = {"two-preds", "pred-chain-binary", "two-preds-mixed", "three-preds", "widening-preds"}
+
+
 def known_region(case):
     t, dt, opt = case["template"], case["dtype"], case["optimize"]
     if t.startswith("argm"):
@@ -201,7 +205,9 @@ def known_region(case):
         return "binary-predecessor-fused-into-short-axis-reduction"
     if t == "searchsorted" and opt == "fuse-all":
         return "forced-fusion-searchsorted"
-    if case["compressor"] == "default":
+    if case["compressor"] == "default" and (case["data"] == "incompressible" or case["geom"] == "uneven" or t in TIGHT):
+        # surveyed: with compressible data, whole chunks and templates that have slack the default compressor stays within
+        # the bound (1,606 + 492 cells, 0 confirmed excesses outside the uneven geometry); those cells are part of the campaign
         return "compressed-read-third-buffer"
     return None
 
@@ -233,7 +239,10 @@ def case_strategy(include_known=False, only=None):
                     break
                 moved = 1
                 if kr == "compressed-read-third-buffer":
-                    case["compressor"] = "none"
+                    if case["data"] == "incompressible" and case["geom"] != "uneven" and case["template"] not in TIGHT and draw(st.booleans()):
+                        case["data"] = "compressible"
+                    else:
+                        case["compressor"] = "none"
                 elif kr == "arg-reduction-copies":
                     case["template"] = "max-axis1"
                 elif kr == "var-std-temporaries":
